@@ -29,6 +29,9 @@ HAND = [
     {"choice": [0, MAXSIZE, [{"elem": ["a", 1, 1]}, {"elem": ["b", 1, MAXSIZE]}]]},
     {"seq": [1, 1, [{"elem": ["a", 1, 1]}, {"elem": ["b", 0, 1]}, {"elem": ["a", 0, 1]}]]},
     {"seq": [2, 3, [{"seq": [1, 2, [{"elem": ["a", 1, 2]}]]}]]},
+    # valid schema on which generation died with AssertionError in reset_symmetrical_choices (repaired, fixed: C02)
+    {"choice": [1, 1, [{"choice": [0, 1, [{"elem": ["b", 1, 1]}, {"elem": ["c", 1, 1]}, {"elem": ["d", 1, 1]}]]},
+                       {"seq": [0, 1, [{"elem": ["a", 1, 1]}, {"elem": ["a", 1, 1]}, {"elem": ["d", 1, 1]}]]}]]},
 ]
 
 
@@ -46,7 +49,7 @@ def particles(rng, n, dup_share=0.5):
 
 # ------------------------------------------------------------------ cores
 def gen_sites(rng, tier):
-    for p in particles(rng, n_cases(tier, 400, 20000)):
+    for p in particles(rng, n_cases(tier, 400, 6000)):
         yield {"particle": p}
 
 
@@ -65,16 +68,21 @@ def canon_sites(o):
 
 def stage_gen(stage):
     def gen(rng, tier):
-        for p in particles(rng, n_cases(tier, 300, 15000), dup_share=0.7):
+        for p in particles(rng, n_cases(tier, 300, 4000), dup_share=0.7):
             try:
                 sites = G.real_xsd_sites(G.particle_xsd(p))
             except Exception:  # noqa: BLE001
                 continue
-            if stage != "calc":
-                # feed each later stage with what the real earlier stages produce
-                sites = G.real_stage(sites, "calc")
-            if stage == "merge":
-                sites = G.real_stage(sites, "effective")
+            try:
+                if stage != "calc":
+                    # feed each later stage with what the real earlier stages produce
+                    sites = G.real_stage(sites, "calc")
+                if stage == "merge":
+                    sites = G.real_stage(sites, "effective")
+            except Exception:  # noqa: BLE001
+                # an earlier real stage raised: that case belongs to the op of that stage (which
+                # compares the exception with the model), it cannot be fed to a later one
+                continue
             yield {"sites": sites}
 
     return gen
@@ -91,7 +99,7 @@ def stage_impl(stage):
 
 
 def gen_occurs(rng, tier):
-    for p in particles(rng, n_cases(tier, 300, 15000), dup_share=0.7):
+    for p in particles(rng, n_cases(tier, 300, 4000), dup_share=0.7):
         try:
             yield {"sites": G.real_xsd_sites(G.particle_xsd(p))}
         except Exception:  # noqa: BLE001
@@ -114,7 +122,7 @@ def field_shapes(cls):
 
 
 def gen_fields(rng, tier):
-    for p in particles(rng, n_cases(tier, 80, 4000), dup_share=0.5):
+    for p in particles(rng, n_cases(tier, 80, 700), dup_share=0.5):
         if valid_schema(p):
             yield {"particle": p}
 
@@ -164,7 +172,7 @@ def gen_choice_clashes(rng, tier):
     """repeating choices of single elements whose python types overlap (the case compound fields
     must disambiguate): plain/derived types and unions sharing a member type"""
     clash = ["string", "token", "int", "long", "date", "u_int_string", "u_date_int", "boolean", "decimal"]
-    for _ in range(n_cases(tier, 20, 1500)):
+    for _ in range(n_cases(tier, 20, 400)):
         k = rng.randint(2, 4)
         names = rng.sample(["a", "b", "c", "d", "e"], k)
         p = {"choice": [rng.choice([0, 1]), MAXSIZE, [{"elem": [n, 1, 1]} for n in names]]}
@@ -180,9 +188,340 @@ def gen_e2e(rng, tier):
     n = 0
     for a in gen_docs(rng, tier):
         n += 1
-        if n > n_cases(tier, 25, 1500):
+        if n > n_cases(tier, 25, 500):
             break
         yield a
+
+
+# ------------------------------------------------------------------ named model groups and xs:all (Gen/Groups.lean)
+HAND_GROUPS = [
+    # the seeded-regression shape: one group, referenced plainly and with 0..unbounded, stricter reference first
+    {"defs": [["g0", {"seq": [1, 1, [{"elem": ["a", 1, 1]}, {"elem": ["b", 0, 1]}]]}]],
+     "types": [{"ref": ["g0", 1, 1]}, {"ref": ["g0", 0, MAXSIZE]}]},
+    {"defs": [["g0", {"seq": [1, 1, [{"elem": ["a", 1, 1]}, {"elem": ["b", 0, 1]}]]}]],
+     "types": [{"ref": ["g0", 0, MAXSIZE]}, {"seq": [1, 1, [{"elem": ["x", 1, 1]}, {"ref": ["g0", 1, 1]}]]}]},
+    # a reference inside a choice, a nested reference, a group defined after its use
+    {"defs": [["g0", {"seq": [1, 1, [{"elem": ["a", 1, 1]}, {"ref": ["g1", 0, 1]}]]}], ["g1", {"choice": [1, 1, [{"elem": ["b", 1, 1]}, {"elem": ["c", 1, 3]}]]}]],
+     "types": [{"ref": ["g0", 1, MAXSIZE]}, {"choice": [1, 1, [{"elem": ["x", 1, 1]}, {"ref": ["g0", 1, 1]}]]}, {"seq": [1, 1, [{"ref": ["g1", 2, 2]}]]}]},
+    # xs:all, directly and through a group
+    {"defs": [["g0", {"all": [1, 1, [{"elem": ["a", 1, 1]}, {"elem": ["b", 0, 1]}]]}]],
+     "types": [{"all": [0, 1, [{"elem": ["p", 1, 1]}, {"elem": ["q", 0, 1]}]]}, {"ref": ["g0", 1, 1]}, {"ref": ["g0", 0, 1]}]},
+    # the same group twice in one type: two clones of one declaration
+    {"defs": [["g0", {"choice": [1, 1, [{"elem": ["a", 1, 1]}, {"elem": ["b", 1, 1]}]]}]],
+     "types": [{"seq": [1, 1, [{"ref": ["g0", 1, 1]}, {"ref": ["g0", 1, 1]}]]}, {"ref": ["g0", 1, 1]}]},
+]
+
+
+def gschemas(rng, n):
+    for sch in HAND_GROUPS:
+        yield sch
+    for _ in range(n):
+        yield G.gen_gschema(rng, dup=rng.random() < 0.25)
+
+
+def gen_gsites(rng, tier):
+    for sch in gschemas(rng, n_cases(tier, 300, 3000)):
+        yield sch
+
+
+def impl_gsites(a, upto="ungroup"):
+    try:
+        return ok(G.real_schema_classes(G.gschema_xsd(a, defs_last=bool(a.get("defs_last"))), upto=upto))
+    except AssertionError:
+        return err("LEAK:AssertionError")
+    except Exception as e:  # noqa: BLE001
+        return err("GEN:" + type(e).__name__)
+
+
+def canon_gsites(o):
+    if isinstance(o, dict) and "ok" in o:
+        return {"ok": G.renumber_classes(o["ok"])}
+    return o
+
+
+def gen_gcalc(rng, tier):
+    """the classes of a schema after the real UNGROUP step, as the input of one CalculateAttributePaths handler"""
+    for sch in gschemas(rng, n_cases(tier, 300, 3000)):
+        try:
+            yield {"classes": G.renumber_classes(G.real_schema_classes(G.gschema_xsd(sch)))}
+        except Exception:  # noqa: BLE001
+            continue
+
+
+def impl_gcalc(a):
+    try:
+        return ok(G.real_calc_classes(a["classes"]))
+    except Exception as e:  # noqa: BLE001
+        return err("LEAK:" + type(e).__name__)
+
+
+def gschema_valid(sch, types=None):
+    from lxml import etree
+
+    try:
+        etree.XMLSchema(etree.fromstring(G.gschema_xsd(sch, types=types).encode()))
+        return True
+    except etree.XMLSchemaParseError:
+        return False
+
+
+def gen_gfields(rng, tier):
+    n = 0
+    for sch in HAND_GROUPS:
+        if gschema_valid(sch):
+            yield sch
+    while n < n_cases(tier, 60, 600):
+        sch = G.gen_gschema(rng, valid=True, dup=rng.random() < 0.15)
+        n += 1
+        if gschema_valid(sch):
+            yield sch
+
+
+def impl_gfields(a):
+    g = CG.run_pipeline({"s.xsd": G.gschema_xsd(a)})
+    try:
+        if g.error is not None:
+            return err("GEN:" + type(g.error).__name__)
+        classes = g.classes()
+        return ok([field_shapes(classes[f"R{i}"]) for i in range(len(a["types"]))])
+    finally:
+        g.close()
+
+
+def canon_gfields(o):
+    if isinstance(o, dict) and "ok" in o and all(isinstance(c, list) for c in o["ok"]):
+        return {"ok": [{s["name"]: [s["max"] > 1, s["min"] >= 1 and s["max"] <= 1] for s in c} for c in o["ok"]]}
+    return o
+
+
+# ------------------------------------------------------------------ use / default / fixed (Gen/Attrs.lean)
+def gen_attr_decls(rng, tier):
+    uses = [None, "optional", "required", "prohibited"]
+    # bounded-exhaustive first: every use x default/fixed x type; every occurrence range x default/fixed x type
+    exhaustive = []
+    for tp in ("string", None):
+        for dflt, fx in ((None, None), ("dv", None), (None, "fv"), ("dv", "fv"), ("", None)):
+            for u in uses:
+                exhaustive.append({"kind": "attribute", "use": u, "default": dflt, "fixed": fx, "type": tp})
+            for mn, mx in ((1, 1), (0, 1), (0, MAXSIZE), (1, MAXSIZE), (2, 2), (0, 0), (2, 3)):
+                exhaustive.append({"kind": "element", "min": mn, "max": mx, "default": dflt, "fixed": fx, "type": tp})
+    for i in range(0, len(exhaustive), 12):
+        yield {"decls": exhaustive[i:i + 12]}
+    for _ in range(n_cases(tier, 150, 2000)):
+        yield {"decls": [G.gen_decl(rng) for _ in range(rng.randint(1, 8))]}
+
+
+def impl_attr_map(a):
+    try:
+        return ok(G.real_attr_map(a["decls"]))
+    except Exception as e:  # noqa: BLE001
+        return err("HARNESS:" + type(e).__name__)
+
+
+def gen_attr_sanitize(rng, tier):
+    vals = [None, "dv", ""]
+    out = []
+    for ia in (True, False):
+        for mn, mx in ((0, 1), (1, 1), (0, MAXSIZE), (1, MAXSIZE), (2, 2), (0, 0)):
+            for d in vals:
+                for fx in (False, True):
+                    for ao in (False, True):
+                        for xt in (False, True):
+                            if xt and not ia:
+                                continue
+                            out.append({"is_attribute": ia, "min": mn, "max": mx, "default": d, "fixed": fx and d is not None, "any_obj": ao, "xsi_type": xt})
+    for i in range(0, len(out), 16):
+        yield {"attrs": out[i:i + 16]}
+    for _ in range(n_cases(tier, 50, 3000)):
+        yield {"attrs": [rng.choice(out) for _ in range(8)]}
+
+
+def impl_attr_sanitize(a):
+    try:
+        return ok(G.real_attr_sanitize(a["attrs"]))
+    except Exception as e:  # noqa: BLE001
+        return err("LEAK:" + type(e).__name__)
+
+
+def gen_attr_fields(rng, tier):
+    for i, a in enumerate(gen_attr_decls(rng, tier)):
+        if i >= n_cases(tier, 10**6, 600):
+            break
+        yield a
+
+
+def impl_attr_fields(a):
+    g = CG.run_pipeline({"s.xsd": G.decls_xsd(a["decls"])})
+    try:
+        if g.error is not None:
+            return err("GEN:" + type(g.error).__name__)
+        fs = {f.metadata.get("name", f.name): f for f in dataclasses.fields(g.classes()["R"])}
+        return ok([G.dataclass_field_shape(fs[f"d{i}"]) if f"d{i}" in fs else None for i in range(len(a["decls"]))])
+    finally:
+        g.close()
+
+
+# ------------------------------------------------------------------ derived types (Gen/Derive.lean)
+def gen_override(rng, tier):
+    occs = [(1, 1), (0, 1), (0, MAXSIZE), (1, MAXSIZE), (2, 2), (0, 0), (2, 5)]
+    dfl = [(None, False), ("dv", False), ("dv", True), ("x", False)]
+    for cmn, cmx in occs:
+        for pmn, pmx in occs:
+            for cd, cf in dfl:
+                for pd, pf in dfl[:3]:
+                    yield {"child": {"min": cmn, "max": cmx, "default": cd, "fixed": cf}, "parent": {"min": pmn, "max": pmx, "default": pd, "fixed": pf}}
+    for _ in range(n_cases(tier, 100, 5000)):
+        yield {"child": G.gen_oattr(rng), "parent": G.gen_oattr(rng)}
+
+
+def impl_override(a):
+    try:
+        return ok(G.real_override(a["child"], a["parent"]))
+    except Exception as e:  # noqa: BLE001
+        return err("LEAK:" + type(e).__name__)
+
+
+def gen_restrict(rng, tier):
+    """base: 1..5 elements; own: a subsequence of the base names re-declared with any bounds, sometimes a new name"""
+    for _ in range(n_cases(tier, 250, 3000)):
+        names = rng.sample(list("abcdefg"), rng.randint(1, 5))
+        base = [G.gen_oattr(rng, n) for n in names]
+        own = [G.gen_oattr(rng, n) for n in names if rng.random() < 0.6]
+        if rng.random() < 0.15:
+            own.append(G.gen_oattr(rng, "z"))
+        yield {"base": base, "own": own}
+
+
+def impl_restrict_attrs(a):
+    try:
+        return ok(G.real_restrict_attrs(a["base"], a["own"]))
+    except Exception as e:  # noqa: BLE001
+        return err("LEAK:" + type(e).__name__)
+
+
+def gen_restrict_fields(rng, tier):
+    for i, a in enumerate(gen_restrict(rng, tier)):
+        if i >= n_cases(tier, 10**6, 700):
+            break
+        # the mapper reads `default`+`fixed` from one declaration: keep what a schema can say; no maxOccurs=0 in the base
+        ok_ = all(o["max"] > 0 for o in a["base"]) and all(not (o["max"] == 0 and o["default"] is not None) for o in a["own"])
+        if ok_ and a["own"]:
+            yield a
+
+
+def named_shapes(cls):
+    import dataclasses as dc
+
+    out = []
+    for f in dc.fields(cls):
+        if f.metadata.get("type") == "Ignore":
+            out.append([f.metadata.get("name", f.name), "prohibited"])
+        elif f.metadata.get("type") == "Element":
+            out.append([f.metadata.get("name", f.name), G.dataclass_field_shape(f)])
+    return out
+
+
+def impl_restrict_fields(a):
+    g = CG.run_pipeline({"s.xsd": G.derive_xsd(a["base"], own=a["own"])})
+    try:
+        if g.error is not None:
+            return err("GEN:" + type(g.error).__name__)
+        classes = g.classes()
+        if classes["C"].__bases__[0].__name__ != "A":
+            return {"unmodelled": "the restriction base was dropped (FlattenClassExtensions.should_remove_extension)"}
+        return ok({"derived": named_shapes(classes["C"]), "base": named_shapes(classes["A"])})
+    finally:
+        g.close()
+
+
+def canon_restrict_fields(o):
+    return o
+
+
+def gen_ext(rng, tier):
+    for _ in range(n_cases(tier, 80, 500)):
+        pa = G.gen_particle(rng, distinct=["a", "b", "c", "d"])
+        pb = G.gen_particle(rng, distinct=["e", "f", "g", "h"])
+        if pa is None or pb is None or "elem" in pa or "elem" in pb:
+            continue
+        yield {"base": pa, "ext": pb}
+
+
+def impl_ext_fields(a):
+    g = CG.run_pipeline({"s.xsd": G.derive_xsd(a["base"], ext=a["ext"])})
+    try:
+        if g.error is not None:
+            return err("GEN:" + type(g.error).__name__)
+        classes = g.classes()
+        if classes["B"].__bases__[0].__name__ != "A":
+            return {"unmodelled": "the extension was flattened or dropped"}
+        return ok([[n, [isinstance(sh, dict) and sh["default"] == "list", isinstance(sh, dict) and sh["default"] == "MISSING"]] for n, sh in named_shapes(classes["B"])])
+    finally:
+        g.close()
+
+
+def canon_ext_fields(o):
+    if isinstance(o, dict) and "ok" in o and o["ok"] and isinstance(o["ok"][0], dict):
+        return {"ok": [[s["name"], [s["max"] > 1, s["min"] >= 1 and s["max"] <= 1]] for s in o["ok"]]}
+    return o
+
+
+# ------------------------------------------------------------------ substitution groups (Gen/Subst.lean)
+def gen_subst_case(rng):
+    p = G.gen_particle(rng, distinct=["a", "b", "c", "d", "e"])
+    if p is None or "elem" in p:
+        return None
+    names = G.particle_names(p)
+    refs = [n for n in names if rng.random() < 0.6]
+    members = ["m1", "m2", "m3", "m4"][: rng.randint(0, 4)]
+    subs = []
+    for m in members:
+        heads = refs + [x for x, _ in subs]
+        if heads:
+            subs.append([m, rng.choice(heads)])
+    return {"particle": p, "refs": refs, "subs": subs}
+
+
+def gen_subst_sites(rng, tier):
+    for _ in range(n_cases(tier, 250, 2500)):
+        a = gen_subst_case(rng)
+        if a is None:
+            continue
+        try:
+            sites = G.real_stage(G.real_stage(G.real_xsd_sites(G.particle_xsd(a["particle"])), "calc"), "effective")
+        except Exception:  # noqa: BLE001
+            continue
+        yield {"sites": sites, "refs": a["refs"], "subs": a["subs"]}
+
+
+def impl_subst_sites(a):
+    try:
+        return ok(G.real_subst_sites(a["sites"], a["subs"], a["refs"]))
+    except Exception as e:  # noqa: BLE001
+        return err("LEAK:" + type(e).__name__)
+
+
+def canon_by_name(o):
+    if isinstance(o, dict) and "ok" in o:
+        return {"ok": G.by_name(o["ok"])}
+    return o
+
+
+def gen_subst_fields(rng, tier):
+    for _ in range(n_cases(tier, 70, 500)):
+        a = gen_subst_case(rng)
+        if a is not None:
+            yield a
+
+
+def impl_subst_fields(a):
+    g = CG.run_pipeline({"s.xsd": G.particle_xsd(a["particle"], refs=a["refs"], subs=[tuple(x) for x in a["subs"]])})
+    try:
+        if g.error is not None:
+            return err("GEN:" + type(g.error).__name__)
+        return ok(field_shapes(g.classes()["R"]))
+    finally:
+        g.close()
 
 
 CORRS = [
@@ -193,6 +532,35 @@ CORRS = [
     Corr("gen.occurs", gen_occurs, stage_impl("all"), describe="the three handlers in container order vs model"),
     Corr("gen.xsd_occurs", gen_fields, impl_fields, canon=canon_fields,
          describe="whole real pipeline + stand-in renderer: list-ness / requiredness of generated fields vs model"),
+    Corr("gen.grp_sites", gen_gsites, impl_gsites, canon=canon_gsites,
+         nontrivial=lambda a, o: "ref" in json.dumps(a["types"]) or "all" in json.dumps(a),
+         describe="named groups / xs:all: SchemaParser + SchemaMapper + ClassContainer UNGROUP step (FlattenAttributeGroups, copy_group_attributes) -> attrs and paths of every class vs model"),
+    Corr("gen.grp_calc", gen_gcalc, impl_gcalc, canon=canon_gsites,
+         describe="one CalculateAttributePaths handler over all the classes of a schema (paths with shared group ids) vs model"),
+    Corr("gen.grp_occurs", gen_gsites, lambda a: impl_gsites(a, upto="flatten"), canon=canon_gsites,
+         describe="named groups / xs:all: real container through the FLATTEN step vs model (UNGROUP + the three handlers)"),
+    Corr("gen.grp_fields", gen_gfields, impl_gfields, canon=canon_gfields,
+         describe="named groups / xs:all: whole real pipeline + stand-in renderer: list-ness / requiredness of the fields of every class vs model"),
+    Corr("gen.attr_map", gen_attr_decls, impl_attr_map,
+         describe="use/default/fixed: SchemaParser + SchemaMapper.build_class_attribute (+ CalculateAttributePaths) on xs:attribute / xs:element declarations vs model"),
+    Corr("gen.attr_sanitize", gen_attr_sanitize, impl_attr_sanitize,
+         describe="SanitizeAttributesDefaultValue.process_attribute on constructed attrs vs model"),
+    Corr("gen.attr_fields", gen_attr_fields, impl_attr_fields,
+         describe="use/default/fixed: whole real pipeline + stand-in renderer: presence, init and default of the dataclass field of every declaration vs model"),
+    Corr("gen.override", gen_override, impl_override,
+         describe="ValidateAttributesOverrides.validate_override on constructed child/parent attrs vs model"),
+    Corr("gen.restrict_attrs", gen_restrict, impl_restrict_attrs,
+         describe="ValidateAttributesOverrides.process on a constructed class with a restriction base (validate_attrs + prohibit_parent_attrs) vs model"),
+    Corr("gen.restrict_fields", gen_restrict_fields, impl_restrict_fields, compare=lambda m, i, a: "unmodelled" in i or m == i,
+         describe="complexContent restriction: whole real pipeline + stand-in renderer, the dataclass fields of base and derived class vs model"),
+    Corr("gen.ext_fields", gen_ext, impl_ext_fields, canon=canon_ext_fields, compare=lambda m, i, a: "unmodelled" in i or m == i,
+         describe="complexContent extension: whole real pipeline + stand-in renderer, list-ness / requiredness of inherited + own fields of the derived class vs model"),
+    Corr("gen.subst_sites", gen_subst_sites, impl_subst_sites, canon=canon_by_name,
+         nontrivial=lambda a, o: bool(a["subs"]),
+         describe="AddAttributeSubstitutions.process on a constructed class in a real container (global elements with substitutionGroup) vs model"),
+    Corr("gen.subst_fields", gen_subst_fields, impl_subst_fields, canon=canon_fields,
+         nontrivial=lambda a, o: bool(a["subs"]),
+         describe="substitution groups: whole real pipeline + stand-in renderer: list-ness / requiredness of the fields (head and members) vs model"),
     Corr("c02.e2e", gen_e2e, impl_e2e, spec=spec_e2e,
          describe="spec-level: schema (typed elements, unions) -> real pipeline under default / compound-field / output-only options -> strict parse of valid documents -> re-serialise; expected: faithful"),
 ]
@@ -239,8 +607,10 @@ def multi_site(p, n):
     return G.particle_names(p).count(n) > 1
 
 
-def order_promised(p, top=True):
-    """every repeating group is a choice of single elements, or the top-level sequence of single elements"""
+def order_promised(p, top=True, heads=()):
+    """every repeating group is a choice of single elements, or the top-level sequence of single elements.
+    `heads`: element references whose element heads a substitution group with members: such a reference is
+    an (implicit) choice between the head and the members, not a single element"""
     if "elem" in p:
         return True
     if "choice" in p:
@@ -250,8 +620,8 @@ def order_promised(p, top=True):
     if mx > 1:
         # "single elements": each member occurs exactly once per iteration (with optional or
         # repeating members the rolling interleave of sequence fields cannot tell iterations apart)
-        return top and all("elem" in k and k["elem"][1:] == [1, 1] for k in kids)
-    return all(order_promised(k, False) for k in kids)
+        return top and all("elem" in k and k["elem"][1:] == [1, 1] and k["elem"][0] not in heads for k in kids)
+    return all(order_promised(k, False, heads) for k in kids)
 
 
 def oracle_docs(a):
@@ -262,14 +632,15 @@ def oracle_docs(a):
     from xsdata.formats.dataclass.serializers import XmlSerializer
 
     p, words, types = a["particle"], a["words"], a.get("types")
-    xsd = G.particle_xsd(p, types=types)
+    xsd = G.particle_xsd(p, types=types, refs=a.get("refs", ()), subs=[tuple(x) for x in a.get("subs", ())])
     try:
         schema = etree.XMLSchema(etree.fromstring(xsd.encode()))
     except etree.XMLSchemaParseError:
         return None  # not a valid schema (e.g. non-deterministic content model): outside the property
     passes = [({}, False)]
+    heads = {h for _, h in a.get("subs", ()) if h in a.get("refs", ())}
     for extra in a.get("configs", []):
-        passes.append((extra, bool(extra.get("compound_fields")) and order_promised(p)))
+        passes.append((extra, bool(extra.get("compound_fields")) and order_promised(p, heads=heads)))
     reference = None
     for opts, ordered in passes:
         g = CG.run_pipeline({"s.xsd": xsd}, **opts)
@@ -322,7 +693,7 @@ OUTPUT_ONLY = [
 
 
 def gen_docs(rng, tier):
-    for p in particles(rng, n_cases(tier, 60, 3000), dup_share=0.3):
+    for p in particles(rng, n_cases(tier, 60, 100000), dup_share=0.3):
         typed = rng.random() < 0.6
         types = G.assign_types(rng, p) if typed else None
         try:
@@ -383,7 +754,7 @@ def gen_groups(rng, tier):
     hand = {"seq": [1, 1, [{"elem": ["a", 1, 1]}, {"elem": ["b", 0, 1]}]]}
     yield {"group": hand, "refs": [(1, 1), (0, G.MAXSIZE)], "words": [[["a", "b"], ["a"]], [[], ["a", "a", "b", "a"], ["a", "b"]]], "types": None}
     yield {"group": hand, "refs": [(0, G.MAXSIZE), (1, 1)], "words": [[[], ["a", "a", "b", "a"]], [["a", "b"], ["a"]]], "types": None}
-    for _ in range(n_cases(tier, 40, 1500)):
+    for _ in range(n_cases(tier, 40, 100000)):
         q = G.gen_particle(rng, distinct=["a", "b", "c", "d", "e", "f"])
         if q is None or "elem" in q:
             continue
@@ -394,6 +765,280 @@ def gen_groups(rng, tier):
         words = [[G.sample_word(rng, {"seq": [mn, mx, [q]]}) for _ in range(4)] for mn, mx in refs]
         cfg = {"compound_fields": True} if rng.random() < 0.3 else {}
         yield {"group": q, "refs": refs, "words": words, "types": types, "config": cfg}
+
+
+def oracle_gschema(a):
+    """schemas with named groups (nested references, several references with their own occurrence ranges)
+    and xs:all: documents valid for the type of r<i> parse into R<i> under strict settings and come back
+    with the same children"""
+    from lxml import etree
+    from xsdata.formats.dataclass.context import XmlContext
+    from xsdata.formats.dataclass.parsers import XmlParser
+    from xsdata.formats.dataclass.parsers.config import ParserConfig
+    from xsdata.formats.dataclass.serializers import XmlSerializer
+
+    sch, types = a["schema"], a.get("types")
+    xsd = G.gschema_xsd(sch, types=types, defs_last=bool(a.get("defs_last")))
+    try:
+        schema = etree.XMLSchema(etree.fromstring(xsd.encode()))
+    except etree.XMLSchemaParseError:
+        return None
+    g = CG.run_pipeline({"s.xsd": xsd}, **a.get("config", {}))
+    try:
+        if g.error is not None:
+            return f"generation failed: {type(g.error).__name__}: {g.error}"
+        ctx = XmlContext()
+        parser = XmlParser(context=ctx, config=ParserConfig(fail_on_unknown_properties=True, fail_on_unknown_attributes=True, fail_on_converter_warnings=True))
+        for i, words in enumerate(a["words"]):
+            R = g.classes()[f"R{i}"]
+            for w in words:
+                doc = G.word_doc(w, types=types, root=f"r{i}")
+                if not schema.validate(etree.fromstring(doc.encode())):
+                    continue
+                try:
+                    obj = parser.from_string(doc, R)
+                except Exception as e:  # noqa: BLE001
+                    return f"schema-valid document {doc} rejected (type #{i}): {type(e).__name__}: {e}"
+                out = XmlSerializer(context=ctx).render(obj)
+                got = [(etree.QName(c).localname, c.text) for c in etree.fromstring(out.encode())]
+                if sorted(got) != sorted(zip(w, G.word_values(w, types))):
+                    return f"document {doc} re-serialised with other content (type #{i}): {out}"
+    finally:
+        g.close()
+    return None
+
+
+def gen_gschema_docs(rng, tier):
+    for sch in HAND_GROUPS:
+        yield {"schema": sch, "words": [[G.sample_gword(rng, sch, t) for _ in range(4)] for t in sch["types"]], "types": None}
+    n = 0
+    while n < n_cases(tier, 60, 100000):
+        n += 1
+        sch = G.gen_gschema(rng, valid=True, dup=rng.random() < 0.1)
+        names = {x for t in sch["types"] for x in G.gparticle_names(sch, t)}
+        types = {x: rng.choice(list(G.ELEM_TYPES)) for x in names} if rng.random() < 0.4 else None
+        if not gschema_valid(sch, types):
+            continue
+        words = [[G.sample_gword(rng, sch, t) for _ in range(4)] for t in sch["types"]]
+        cfg = {"compound_fields": True} if rng.random() < 0.3 else {}
+        yield {"schema": sch, "words": words, "types": types, "config": cfg, "defs_last": rng.random() < 0.3}
+
+
+def covered_gschema(a, msg):
+    """known finding: an element name with several sites in the expanded content model"""
+    import re
+
+    m = re.search(r"type #(\d+)", msg)
+    if not m:
+        return None
+    names = G.gparticle_names(a["schema"], a["schema"]["types"][int(m.group(1))])
+    for n in set(names):
+        if names.count(n) > 1 and (f"}}{n}" in msg or f":{n}" in msg):
+            return "C02-duplicate-name-sites"
+    return None
+
+
+def oracle_attr_docs(a):
+    """use/default/fixed: whatever a schema-valid element carries for an attribute declaration is accepted by
+    the strict parser and read as the schema-normalized value (the value given, else default/fixed, else nothing);
+    elements with default/fixed and every occurrence range keep their children through the round trip"""
+    from lxml import etree
+    from xsdata.formats.dataclass.context import XmlContext
+    from xsdata.formats.dataclass.parsers import XmlParser
+    from xsdata.formats.dataclass.parsers.config import ParserConfig
+    from xsdata.formats.dataclass.serializers import XmlSerializer
+
+    decls = a["decls"]
+    xsd = G.decls_xsd(decls)
+    try:
+        schema = etree.XMLSchema(etree.fromstring(xsd.encode()))
+    except etree.XMLSchemaParseError:
+        return None
+    g = CG.run_pipeline({"s.xsd": xsd}, **a.get("config", {}))
+    try:
+        if g.error is not None:
+            return f"generation failed: {type(g.error).__name__}: {g.error}"
+        R = g.classes()["R"]
+        ctx = XmlContext()
+        parser = XmlParser(context=ctx, config=ParserConfig(fail_on_unknown_properties=True, fail_on_unknown_attributes=True, fail_on_converter_warnings=True))
+        fields = {f.metadata.get("name", f.name): f.name for f in dataclasses.fields(R)}
+        for doc_spec in a["docs"]:
+            attrs = "".join(f' d{i}="{G._xml_attr(v)}"' for i, v in doc_spec["attrs"])
+            kids = "".join(f"<t:d{i}>{v}</t:d{i}>" for i, vals in doc_spec["elems"] for v in vals)
+            doc = f'<t:r xmlns:t="urn:t"{attrs}>{kids}</t:r>'
+            if not schema.validate(etree.fromstring(doc.encode())):
+                continue
+            try:
+                obj = parser.from_string(doc, R)
+            except Exception as e:  # noqa: BLE001
+                return f"schema-valid document {doc} rejected: {type(e).__name__}: {e}"
+            given = dict(doc_spec["attrs"])
+            for i, d in enumerate(decls):
+                if d["kind"] != "attribute" or d["use"] == "prohibited":
+                    continue
+                want = given.get(i)
+                if want is None:
+                    want = d["default"] if d["default"] is not None else d["fixed"]
+                got = getattr(obj, fields[f"d{i}"]) if f"d{i}" in fields else None
+                if got != want:
+                    return f"document {doc}: attribute d{i} ({d}) read as {got!r}, schema-normalized value {want!r}"
+            out = XmlSerializer(context=ctx).render(obj)
+            back = etree.fromstring(out.encode())
+            exp_kids = [(f"d{i}", v) for i, vals in doc_spec["elems"] for v in vals]
+            got_kids = [(etree.QName(c).localname, c.text or "") for c in back]
+            if got_kids != exp_kids:
+                return f"document {doc} re-serialised with other children: {out}"
+
+            def norm(attrib):
+                m = {k: v for k, v in attrib.items()}
+                for i, d in enumerate(decls):
+                    if d["kind"] == "attribute" and d["use"] != "prohibited" and f"d{i}" not in m:
+                        dv = d["default"] if d["default"] is not None else d["fixed"]
+                        if dv is not None:
+                            m[f"d{i}"] = dv
+                return m
+
+            if norm(back.attrib) != norm({f"d{i}": v for i, v in doc_spec["attrs"]}):
+                return f"document {doc} re-serialised with other attributes (after defaults): {out}"
+            if not schema.validate(back):
+                return f"document {doc} re-serialised as {out}, which is not schema-valid"
+    finally:
+        g.close()
+    return None
+
+
+def gen_attr_docs(rng, tier):
+    n = 0
+    while n < n_cases(tier, 60, 100000):
+        n += 1
+        decls = []
+        for _ in range(rng.randint(1, 7)):
+            d = G.gen_decl(rng)
+            if G.decl_valid(d) and not (d["kind"] == "element" and d["type"] is None):
+                decls.append(d)
+        if not decls:
+            continue
+        docs = []
+        for _ in range(4):
+            attrs, elems = [], []
+            for i, d in enumerate(decls):
+                if d["kind"] == "attribute":
+                    if d["use"] == "prohibited":
+                        continue
+                    if d["use"] == "required" or rng.random() < 0.5:
+                        attrs.append([i, d["fixed"] if d["fixed"] is not None else rng.choice(["v1", "dv", "other value"])])
+                else:
+                    hi = d["min"] + 2 if d["max"] == MAXSIZE else d["max"]
+                    k = rng.randint(d["min"], max(d["min"], hi))
+                    val = d["fixed"] if d["fixed"] is not None else None
+                    elems.append([i, [val if val is not None else f"e{j}" for j in range(k)]])
+            docs.append({"attrs": attrs, "elems": elems})
+        yield {"decls": decls, "docs": docs, "config": {"compound_fields": True} if rng.random() < 0.2 else {}}
+
+
+def oracle_derived(a):
+    """types derived by extension / restriction: documents valid for the derived type parse into the derived
+    class under strict settings and come back with the same children"""
+    from lxml import etree
+    from xsdata.formats.dataclass.context import XmlContext
+    from xsdata.formats.dataclass.parsers import XmlParser
+    from xsdata.formats.dataclass.parsers.config import ParserConfig
+    from xsdata.formats.dataclass.serializers import XmlSerializer
+
+    xsd = G.derive_xsd(a["base"], own=a.get("own"), ext=a.get("ext"))
+    try:
+        schema = etree.XMLSchema(etree.fromstring(xsd.encode()))
+    except etree.XMLSchemaParseError:
+        return None
+    g = CG.run_pipeline({"s.xsd": xsd}, **a.get("config", {}))
+    try:
+        if g.error is not None:
+            return f"generation failed: {type(g.error).__name__}: {g.error}"
+        ctx = XmlContext()
+        parser = XmlParser(context=ctx, config=ParserConfig(fail_on_unknown_properties=True, fail_on_unknown_attributes=True, fail_on_converter_warnings=True))
+        for root, words in a["docs"].items():
+            R = g.classes()[root.capitalize()]
+            for w in words:
+                doc = G.word_doc(w, root=root)
+                if not schema.validate(etree.fromstring(doc.encode())):
+                    continue
+                try:
+                    obj = parser.from_string(doc, R)
+                except Exception as e:  # noqa: BLE001
+                    return f"schema-valid document {doc} rejected: {type(e).__name__}: {e}"
+                out = XmlSerializer(context=ctx).render(obj)
+                back = etree.fromstring(out.encode())
+                got = [(etree.QName(c).localname, c.text) for c in back]
+                if sorted(got) != sorted(zip(w, G.word_values(w))):
+                    return f"document {doc} re-serialised with other content: {out}"
+    finally:
+        g.close()
+    return None
+
+
+def gen_derived(rng, tier):
+    n = 0
+    while n < n_cases(tier, 60, 100000):
+        n += 1
+        names = rng.sample(list("abcdefg"), rng.randint(1, 4))
+        base = []
+        for nm in names:
+            mn, mx = rng.choice([(1, 1), (0, 1), (0, MAXSIZE), (1, MAXSIZE), (0, 3), (2, 5)])
+            base.append({"name": nm, "min": mn, "max": mx, "default": None, "fixed": False})
+        own = []
+        for o in base:
+            r = rng.random()
+            if o["min"] == 0 and r < 0.3:
+                continue  # left out by the restriction
+            mn = rng.randint(o["min"], o["min"] + 1)
+            hi = o["max"] if o["max"] != MAXSIZE else rng.choice([MAXSIZE, 1, 2, 4])
+            mx = hi if r < 0.6 else max(mn, min(hi, rng.choice([1, 2, 3])))
+            if mx < mn:
+                mn = mx
+            own.append({**o, "min": mn, "max": mx})
+        ext = G.gen_particle(rng, distinct=["p", "q", "r", "s"])
+        if ext is not None and "elem" in ext:
+            ext = {"seq": [1, 1, [ext]]}
+        base_p = {"seq": [1, 1, [{"elem": [o["name"], o["min"], o["max"]]} for o in base]]}
+        own_p = {"seq": [1, 1, [{"elem": [o["name"], o["min"], o["max"]]} for o in own]]} if own else None
+        docs = {"ra": [G.sample_word(rng, base_p) for _ in range(3)]}
+        if own_p:
+            docs["rc"] = [G.sample_word(rng, own_p) for _ in range(4)] + [G.sample_word(rng, base_p)]
+        if ext is not None:
+            docs["rb"] = [G.sample_word(rng, base_p) + G.sample_word(rng, ext) for _ in range(4)]
+        yield {"base": base, "own": own if own_p else None, "ext": ext, "docs": docs,
+               "config": {"compound_fields": True} if rng.random() < 0.2 else {}}
+
+
+def gen_subst_docs(rng, tier):
+    """element references whose elements head substitution groups: in the documents every occurrence of a
+    reference is the head or a (transitive) member of its group"""
+    n = 0
+    while n < n_cases(tier, 60, 100000):
+        n += 1
+        a = gen_subst_case(rng)
+        if a is None or not a["subs"]:
+            continue
+        heads = {}
+        for m, h in a["subs"]:
+            heads.setdefault(h, []).append(m)
+
+        def closure(h):
+            out = [h]
+            for m in heads.get(h, []):
+                out += closure(m)
+            return out
+
+        words = []
+        for _ in range(5):
+            w = G.sample_word(rng, a["particle"])
+            words.append([rng.choice(closure(x)) if x in a["refs"] else x for x in w])
+        cfgs = [{"compound_fields": True}] if rng.random() < 0.3 else []
+        yield {"particle": a["particle"], "refs": a["refs"], "subs": a["subs"], "words": words, "types": None, "configs": cfgs}
+
+
+def covered_subst(a, msg):
+    return None  # element names are distinct
 
 
 def covered_groups(a, msg):
@@ -422,6 +1067,10 @@ def adapt_docs(op, a):
 ORACLES = [
     Oracle("c02.valid_docs", gen_docs, oracle_docs, covered=covered_docs, from_ops=("gen.xsd_sites", "gen.xsd_occurs"), adapt=adapt_docs),
     Oracle("c02.group_refs", gen_groups, oracle_groups, covered=covered_groups),
+    Oracle("c02.gschema_docs", gen_gschema_docs, oracle_gschema, covered=covered_gschema),
+    Oracle("c02.attr_docs", gen_attr_docs, oracle_attr_docs),
+    Oracle("c02.derived_docs", gen_derived, oracle_derived),
+    Oracle("c02.subst_docs", gen_subst_docs, oracle_docs, covered=covered_subst),
 ]
 
 
